@@ -419,6 +419,16 @@ func (tb *Table) Bin(op Op, a, b *Term) *Term {
 	case OpULt, OpULe, OpSLt, OpSLe:
 		rs = Bool
 	}
+	if a.Op == OpIte && b.IsConst() && a.Sort != Bool {
+		if r, ok := tb.MapTree(a, rs, func(v uint64) *Term { return tb.Bin(op, tb.Const(s, v), b) }); ok {
+			return r
+		}
+	}
+	if b.Op == OpIte && a.IsConst() && b.Sort != Bool {
+		if r, ok := tb.MapTree(b, rs, func(v uint64) *Term { return tb.Bin(op, a, tb.Const(s, v)) }); ok {
+			return r
+		}
+	}
 	// identities
 	switch op {
 	case OpAdd:
@@ -674,7 +684,9 @@ func (tb *Table) Extract(a *Term, hi, lo int) *Term {
 	case OpExtract:
 		return tb.Extract(a.A[0], hi+a.J, lo+a.J)
 	case OpBAnd, OpBOr, OpBXor:
-		if a.A[1].IsConst() {
+		if a.A[1].IsConst() || hi == lo {
+			// single-bit extracts are always distributed: selector bits of table lookups then become
+			// bits of the underlying variables, whatever shift/or expression computed the index
 			return tb.Bin(a.Op, tb.Extract(a.A[0], hi, lo), tb.Extract(a.A[1], hi, lo))
 		}
 	case OpLShr:
